@@ -357,7 +357,9 @@ class ExpandP(Profile):
     @staticmethod
     def _tree_in_scope(pre, sub):
         nids = [pre.cells[h][FI][F_ID] for h in sub]
-        return all(i in pre.store for i in nids) and len(set(nids)) == len(nids)
+        # (until fix 603eeb2 a tree holding a node discarded from the registry earlier was out of
+        # scope as well, because expansion could not discard it a second time)
+        return len(set(nids)) == len(nids)
 
     def probes(self, c, P):
         k = c.op["k"]
@@ -402,6 +404,12 @@ class ExpandP(Profile):
 
 
 _EMPTY = emlops.Exp()
+
+
+# Until fix 603eeb2 prune could not discard a subtree whose root had been unregistered before
+# (the generator re-attaches nodes an earlier prune discarded), and such trees were adopted
+# unjudged.  Since that repair they are judged like any other tree.
+LEGACY_PRECONDITION = False
 
 
 # ============================================================== C15 prune
@@ -455,9 +463,7 @@ class PruneP(Profile):
         mode = "strict" if strict else "nonstrict"
         st["info"] = None
         pre_sub = pre.subtree(n)
-        if any(not pre.cells[h][RG] for h in pre_sub):
-            # a tree holding nodes that were unregistered before (e.g. re-attached after an
-            # earlier prune discarded them) is outside the quantifier; adopt
+        if LEGACY_PRECONDITION and any(not pre.cells[h][RG] for h in pre_sub):
             c.exp.judged = False
             st["last_prune"] = None
             return None
@@ -615,7 +621,7 @@ class PruneP(Profile):
             return ""
 
     def hang_is_judged(self, pre, R, op, kobj):
-        return all(pre.cells[h][RG] for h in pre.subtree(R["n"]))
+        return not LEGACY_PRECONDITION or all(pre.cells[h][RG] for h in pre.subtree(R["n"]))
 
     def probes(self, c, P):
         if c.op["k"] != "prune":
